@@ -763,4 +763,34 @@ def rewriteTop (ll dg : Bool) (fuel : Nat) (rtl : Bool) (n : RNode) : RNode :=
   let r := reduceAll ll true dg fuel rtl false n
   endElim (reduceNode ll true rtl fuel) fuel rtl false true r
 
+/-! ## the bump-along marker (`finalOptimize`) -/
+
+/-- the loop kinds that get the marker: an unbounded greedy or atomic single-character loop, a lazy one
+    only outside every Atomic group (`!atomicByAncestry && !insideAtomic`; `atomicByAncestry` is false
+    as soon as a Concatenate has been passed, which the insertion requires anyway) -/
+def bumpLoop (ia ab : Bool) : RNode → Bool
+  | .cloop _ k _ _ none => k != .lzy || (!ab && !ia)
+  | _ => false
+
+/-- the walk of `finalOptimize` from the child of the implicit root capture: through Atomic nodes
+    (`ia` = one has been passed) and first children of Concatenates (`ab` = none has been passed);
+    the marker goes in at index 1 of the Concatenate whose first child is the loop -/
+def placeBump (ia ab : Bool) : RNode → RNode
+  | .atomic b => .atomic (placeBump true ab b)
+  | .cat o (c :: cs) =>
+    if bumpLoop ia false c then .cat o (c :: .bump :: cs)
+    else .cat o (placeBump ia false c :: cs)
+  | n => n
+
+/-- the loop the marker is placed after (kind, test, minimum) -/
+def bumpSite (ia ab : Bool) : RNode → Option (LK × CP × Nat)
+  | .atomic b => bumpSite true ab b
+  | .cat _ (c :: _) =>
+    if bumpLoop ia false c then
+      match c with
+      | .cloop _ k p lo _ => some (k, p, lo)
+      | _ => none
+    else bumpSite ia false c
+  | _ => none
+
 end RegexVerif.RewriteDecisions
